@@ -6,8 +6,8 @@
    theorems of Props/C12.v) are about - for every input, well-formed or not.
    [emb_res f] / [emb_gen f] (Model.DecEmb) = the decoder's typed result as Python values: the value returned, or the
    items yielded and then exhaustion / the exception.  A line `(*@ name *)` names the decoder a theorem depends on. *)
-From AV Require Import Base.Util Model.Prim Model.Crc Model.MsgSet Model.Responses Model.DecDSL Model.ReadDSL Model.DecEmb Model.DecAst
-     Proofs.DecDSLSound Proofs.ReadDSLSound.
+From AV Require Import Base.Util Model.Prim Model.Crc Model.MsgSet Model.Responses Model.DecDSL Model.ReadDSL Model.MsgDSL Model.DecEmb Model.DecAst
+     Proofs.DecDSLSound Proofs.ReadDSLSound Proofs.MsgDSLSound.
 
 (*@ get_response_correlation_id *)
 Theorem C05gen_correlation_id : forall msgset data,
@@ -179,3 +179,36 @@ Theorem C05gen_relative_unpack : forall fmt data cur,
     end.
 Proof. exact sound_util_relative_unpack. Qed.
 Print Assumptions C05gen_relative_unpack.
+
+(* ================================================================== KafkaCodec._decode_message and
+   KafkaCodec._decode_message_set_iter, translated from their source into the message-set language Model.MsgDSL
+   (CRC check through Model.Crc, gzip / snappy through the compression oracle, the nested generator functions v0 / v1
+   inlined at the dispatch on the magic byte, the helper absolute(), try / except BufferUnderflowError with the
+   read_message flag): interpreting the source IS Model.MsgSet - the decoder the message-set theorems of C05
+   (round trips, wrapper offsets), C12 (corruption, truncation, cost) and C02 (the consumer's view of the log) are about *)
+(*@ msg__decode_message *)
+Theorem C05gen_absolute : forall off inner,
+  arun (mp_absolute ast_msg__decode_message) off inner = wrap_v1 off inner.
+Proof. exact sound_absolute. Qed.
+Print Assumptions C05gen_absolute.
+
+(* one message: [rec] = what the recursive call on a decompressed set yields *)
+(*@ msg__decode_message *)
+Theorem C05gen_decode_message : forall rec orc data off,
+  mrun ast_msg__decode_message rec orc data off = dec_message rec orc data off.
+Proof. exact sound_decode_message_closed. Qed.
+Print Assumptions C05gen_decode_message.
+
+(* the loop over one byte string, with the partial-tail / read_message / ConsumerFetchSizeTooSmall logic *)
+(*@ msg__decode_message_set_iter *)
+Theorem C05gen_decode_message_set_iter : forall rec orc data,
+  srun (dec_message rec orc) ast_msg__decode_message_set_iter data = dec_loop rec orc (length data) data false.
+Proof. exact sound_set_iter_closed. Qed.
+Print Assumptions C05gen_decode_message_set_iter.
+
+(* the two functions calling each other through wrappers, by the nesting budget *)
+(*@ msg__decode_message msg__decode_message_set_iter *)
+Theorem C05gen_dec_set : forall orc depth data,
+  dsl_dec_set ast_msg__decode_message ast_msg__decode_message_set_iter depth orc data = dec_set depth orc data.
+Proof. exact sound_dec_set. Qed.
+Print Assumptions C05gen_dec_set.
